@@ -60,6 +60,11 @@ class C04(Prop):
                 n = 0 if h == '-' else len(h) * 4
                 for pos in sorted({0, s, e, n, n + 1, (s + e) // 2, max(0, s - 1), e + 1}):
                     cs.append('bs seek %s %d' % (v, pos))
+                # positions in the result of detach / invert count from its first bit, whoever else holds the buffer
+                for pos in sorted({0, 1, e - s, e - s + 1, 8, s}):
+                    cs.append('bs detseek %s %d' % (v, pos))
+                    if thorough or rng.random() < 0.5:
+                        cs.append('bs invseek %s %d' % (v, pos))
                 for k in sorted({0, 1, e - s, e - s + 1, (e - s) // 2, 8, n + 1}):
                     cs.append('bs read %s %d' % (v, k))
                     cs.append('bs peek %s %d' % (v, k))
@@ -75,6 +80,8 @@ class C04(Prop):
             va = '%s %d %d %s' % (a + (rng.choice(OWN),))
             vb = '%s %d %d %s' % (b + (rng.choice(OWN),))
             r = rng.random()
+            if rng.random() < 0.25:
+                cs.append('bs appseek %s %s %d' % (va, vb, rng.choice([0, 1, 8, a[2] - a[1], a[2] - a[1] + b[2] - b[1], a[1]])))
             if r < 0.35:
                 cs.append('bs append %s %s' % (va, vb))
             elif r < 0.55:
